@@ -81,6 +81,7 @@ type EP struct {
 func (r *Rig) Setup(eps []EP) (names, urls []string, err error) {
 	n := atomic.AddInt64(&ctr, 1)
 	var se []stack.Endpoint
+	dead := 0
 	for i, e := range eps {
 		t := e.Type
 		if t == "" {
@@ -93,7 +94,8 @@ func (r *Rig) Setup(eps []EP) (names, urls []string, err error) {
 			url = r.Raw[e.Backend].URL()
 			r.Raw[e.Backend].Reset()
 		} else {
-			url = fmt.Sprintf("http://127.0.0.1:%d", hx.FreePort())
+			url = fmt.Sprintf("http://127.0.0.1:%d", hx.DeadPort(dead))
+			dead++
 		}
 		url += e.BasePath
 		name := fmt.Sprintf("k%d-%c", n, 'A'+i)
